@@ -1,3 +1,4 @@
+mod c08;
 mod c13;
 mod out;
 mod rng;
@@ -33,6 +34,13 @@ fn main() {
                     out.case(&i, &o, nt, r);
                 }
             }
+            "C08" => {
+                let ctx = c08::Ctx::new();
+                for r in &reqs {
+                    let (i, o, nt) = ctx.exec(r);
+                    out.case(&i, &o, nt, r);
+                }
+            }
             _ => {
                 eprintln!("unknown property {}", prop);
                 std::process::exit(2);
@@ -48,6 +56,10 @@ fn main() {
         "C13" => {
             c13::generate(&mut out, tier, seed);
             out.finish(c13::RULE, true);
+        }
+        "C08" => {
+            c08::generate(&mut out, tier, seed);
+            out.finish(c08::RULE, true);
         }
         _ => {
             eprintln!("unknown property {}", prop);
